@@ -244,7 +244,8 @@ Definition carried_ok : list string :=
    recovery (canopy_cover.py l.268, l.393) — the canopy cover of that day, whereas a fresh run
    starts from Crop.CC0 (read_model_initial_conditions).  When tCCadj < Emergence on day 1 the
    first branch (l.182) assigns cc0_adj := CC0 and the field is dead. *)
-Definition carried_live : list string := [ "cc0_adj" ].
+(* repaired in /repo by commit cb3b480 (the reset now assigns cc0_adj := crop.CC0): no live carried field is left *)
+Definition carried_live : list string := [ ].
 
 Theorem carried_fields_whitelisted :
   forall f, In f carried_fields -> In f carried_ok \/ In f carried_live.
@@ -258,7 +259,7 @@ Theorem carried_fields_whitelisted_strict :
   forall f, In f carried_fields -> f <> "cc0_adj" -> In f carried_ok.
 Proof.
   intros f Hf Hn. destruct (carried_fields_whitelisted f Hf) as [H | H]; [exact H |].
-  simpl in H. destruct H as [H | []]. congruence.
+  simpl in H. destruct H.
 Qed.
 
 (* the reported entry is exact: fails (delete the entry) once the reset assigns cc0_adj *)
